@@ -1285,6 +1285,11 @@ def _cola_frame(e):
 
 
 def _raised_in_harness(e):
+    if isinstance(e, (FloatingPointError, Warning)):
+        # the user's strict numeric mode (np.seterr raise / warnings as errors) turned a floating-point event into an
+        # exception -- possibly inside a user-supplied scalar function or operator (harness code playing the user); never a
+        # harness failure: the harness' own observations run under a neutral numeric environment
+        return False
     if isinstance(e, TypeError):
         # wrong-arity errors are raised in the CALLER's frame; if the callee named in the message is
         # not one of the harness' own thin wrappers it is cola's refusal (e.g. Identity.to(device, dtype))
